@@ -28,7 +28,7 @@ func schemaG() *gen.Schema {
 	s := gen.Kitchen()
 	s.Add(&gen.TypeDef{Kind: gen.KInput, Name: "In3", Inputs: []*gen.ArgDef{gen.A("k:String"), gen.A("l:String"), gen.A("n:Int")}})
 	q := s.Types["Query"]
-	q.Fields = append(q.Fields, gen.F("g(o:In3,s:String,fl:Float):String"))
+	q.Fields = append(q.Fields, gen.F("g(o:In3,s:String,fl:Float):String"), gen.F("r(q:Int!,l:[Int]):String"))
 	return s
 }
 
@@ -85,6 +85,9 @@ var pool = []req{
 	{q: `{ o { ... on I { x } ... on O { y: x } } }`, vars: none},                                                      // 39 ... type conditions swapped
 	{q: `query($v: Boolean!) { o { x @skip(if: $v) } }`, vars: []map[string]interface{}{{"v": true}, {"v": false}}},    // 40 skip ...
 	{q: `query($v: Boolean!) { o { x @include(if: $v) } }`, vars: []map[string]interface{}{{"v": true}, {"v": false}}}, // 41 ... against include
+	{q: `{ f(x: 7) r(q: 7) }`, vars: none},       // 42 one literal text at a nullable and at a non-null position ...
+	{q: `{ r(q: 7) f(x: 7) }`, vars: none},       // 43 ... in the other order
+	{q: `{ f(x: 7) r(q: 1, l: 7) }`, vars: none}, // 44 ... and at a list position (single item)
 }
 
 const corePool = 29
